@@ -31,10 +31,10 @@ WORKLOADS = {
 LEVEL = {"C06": "fault_enumeration"}
 RUNS = {
     # property: (quick, thorough) - fixed counts, so one seed explores the same runs anywhere
-    "C01": (60000, 1000000), "C02": (50000, 800000), "C18": (40000, 600000),
+    "C01": (45000, 1000000), "C02": (36000, 800000), "C18": (40000, 600000),
     "C03": (12000, 200000), "C04": (120000, 2000000),
-    "C05": (90000, 1500000), "C06": (3500, 60000),
-    "C19": (70000, 1200000), "C20": (100000, 1500000),
+    "C05": (75000, 1500000), "C06": (3500, 60000),
+    "C19": (45000, 1200000), "C20": (100000, 1500000),
 }
 BLOCK_WALL_CAP_S = 1500
 
